@@ -1,0 +1,9 @@
+package protocol
+
+import "github.com/hujm2023/go-sms-protocol/verifhook"
+
+// splitYield marks the end of one part of a split for the verification build (no-op otherwise): the splitters of
+// concurrently encoded candidates can be interleaved part by part.
+func splitYield(frameKey byte, total, idx int) {
+	verifhook.Yield("split.part", int(frameKey), total, idx)
+}
